@@ -42,6 +42,18 @@ CLAIMED['C10'] = ('proof',
     'decision-table extraction by abstract execution of the loop body over all order types + dataflow rules',
     'DESIGN.md section C10')
 
+CLAIMED['C11'] = ('other',
+    'Exhaustive over the finite registry contents: every non-comment line of the 17 registry files is re-read with the grammar '
+    'extracted from numdb.py (complete consumption of the properties text, equal-length ordered ranges, nesting, duplicates, '
+    'reader returns every written property), every entry must be reachable by a lookup, and every entry must satisfy the contract '
+    'of its consumer (required keys under numdb\'s merge semantics, IBAN structure grammar and length gates, ISBN levels, GS1 format '
+    'grammar, CFI levels). Contracts are anchored in the consumer ASTs so that a changed consumer is noticed. This is a static '
+    'reader/writer agreement check, not a proof about the external sources.',
+    'Trusted: CPython ast/re; the reader model sa/reg.py (its agreement with numdb.read/_find is what C10 checks). Known findings: '
+    'imsi.dat quoting and shadowed MNC entries, five GS1 formats that gs1_128 does not understand.',
+    'strict registry parser driven by the grammar extracted from numdb.py + consumer contracts extracted/anchored in the ASTs',
+    'DESIGN.md section C11')
+
 NOT_APPLICABLE = {
 }
 
